@@ -1028,8 +1028,13 @@ class Emitter:
         loops = s.find_loops(f) if contract is not None else []
         lcontracts = (contract or {}).get('loops', {})
         if contract is not None:
-            for k in lcontracts:
-                if k >= len(loops): raise Unsupported('loop contract for ordinal %d but %s has %d loops' % (k, fn, len(loops)))
+            for k in list(lcontracts):
+                if k >= len(loops):
+                    if lcontracts[k].get('optional'):
+                        # the loop this contract was written for is gone: the function is still checked against its contract without it
+                        lcontracts = {a: b for a, b in lcontracts.items() if a != k}
+                        continue
+                    raise Unsupported('loop contract for ordinal %d but %s has %d loops' % (k, fn, len(loops)))
         loop_of_header = {h: (n, l) for n, (h, l) in enumerate(loops) if n in lcontracts}
         latch_close = {}
         for n, (h, l) in enumerate(loops):
@@ -1539,10 +1544,12 @@ def pure_stub(em, fn):
     proto = '%s %s(%s)' % (rt, nm, ', '.join(ps) or 'void')
     nk = len(keys)
     L.append('static _Bool %s_set[2]; static uint64_t %s_key[2][%d]; static %s %s_val[2]; static unsigned %s_calls;' % (nm, nm, max(nk, 1), rt, nm, nm))
+    L.append('static uint64_t %s_last_key0; static %s %s_last_ret;   /* ghost: the most recent call */' % (nm, rt, nm))
     L.append(proto + ' {')
     L.append('  uint64_t k[%d] = {%s};' % (max(nk, 1), ', '.join(bits(t, e) for t, e in keys) or '0'))
     L.append('  %s_calls++;' % nm)
-    L.append('  for (int s = 0; s < 2; s++) { if (%s_set[s]) { _Bool eq = 1; for (int i = 0; i < %d; i++) eq = eq && (%s_key[s][i] == k[i]); if (eq) return %s_val[s]; } }' % (nm, max(nk, 1), nm, nm))
+    L.append('  %s_last_key0 = k[0];' % nm)
+    L.append('  for (int s = 0; s < 2; s++) { if (%s_set[s]) { _Bool eq = 1; for (int i = 0; i < %d; i++) eq = eq && (%s_key[s][i] == k[i]); if (eq) { %s_last_ret = %s_val[s]; return %s_val[s]; } } }' % (nm, max(nk, 1), nm, nm, nm, nm))
     L.append('  %s nd_;' % rt)
     if isinstance(f.ret, FpT):
         # second clause of the contract (proved on the real body by a companion obligation): a NaN argument gives a NaN result
@@ -1551,6 +1558,7 @@ def pure_stub(em, fn):
             L.append('  __CPROVER_assume(!(%s) || (nd_ != nd_));   /* callee contract: NaN in ==> NaN out */' % nanarg)
     L.append('  int slot = %s_set[0] ? 1 : 0;' % nm)
     L.append('  %s_set[slot] = 1; for (int i = 0; i < %d; i++) %s_key[slot][i] = k[i]; %s_val[slot] = nd_;' % (nm, max(nk, 1), nm, nm))
+    L.append('  %s_last_ret = nd_;' % nm)
     L.append('  return nd_;')
     L.append('}')
     return proto, '\n'.join(L), set()
